@@ -794,11 +794,15 @@ def policy(repo, tier):
     obls.append(ground_obligation("C06/package/frame#observer-methods-scanned", n_obs >= 150, f"{n_obs} observer methods of result classes analysed", "package"))
     fns.append({"function": f"{DT}::<{n_obs} observer methods>", "lines": [1, 1], "file_sha256": dt.sha256, "segment_sha256": dt.sha256, "obligations": n_obs})
     # ---- frames: the caller's input buffer is only read / repositioned -- in every function it is handed to
-    ib = FR.input_buffer_functions(mods, pkg)
+    held = {}
+    ib = FR.input_buffer_functions(mods, pkg, held)
+    bases = FR.class_bases(mods)
+    for key in held:
+        ib.setdefault(key, set())
     for (rel, q), names in sorted(ib.items()):
         fnode = mods[rel].functions[q]
         try:
-            bad = FR.input_buffer_sites(fnode, names)
+            bad = FR.input_buffer_sites(fnode, names, mods[rel], q, pkg, held.get((rel, q), ()), mods, bases)
         except Exception as e:  # noqa
             bad = [(fnode.lineno, f"analysis failed ({type(e).__name__})", False)]
         o = ground_obligation(f"C06/{rel.split('/')[-1]}::{q}/frame#input-buffer-only-read", not bad,
